@@ -21,8 +21,10 @@ pub struct Navigation {
 pub fn cfg() -> Cfg {
     Cfg {
         pool: 6,
-        max_decls: 6,
+        max_decls: 5,
         depth: 3,
+        // four modules: lib/b.oal imports its sibling lib/c.oal by a path relative to itself
+        max_modules: 4,
         ..Cfg::default()
     }
 }
